@@ -12,6 +12,7 @@
   answer the handler gets from its environment; all theorems hold for every `env`.
 -/
 import MM.Lemmas.C23
+import MM.Lemmas.C23Render
 
 namespace MM.C23
 open MM
@@ -112,6 +113,91 @@ theorem C23_truncated (env : Env) (hna : noAuthHandler env) (methods : Bytes)
     rw [List.take_append, List.take_of_length_le hge, handle_noAuth env hna methods hl h0]
     unfold requestPhase
     rw [readRequest_truncated cmd rsv d hd port _ (by rw [List.length_append] at hk; omega)]
+
+/-! ### "exactly": the dial string determines the address and port that were asked for -/
+
+/-- The host an IP destination denotes: an IPv4-mapped IPv6 address IS its IPv4 address
+    (`net.IP.String` prints it in dotted form and every dialer treats the two alike). -/
+def Dest.canon : Dest → Dest
+  | .v6 b => if is4in6 b then .v4 (b.drop 12) else .v6 b
+  | d => d
+
+def Dest.isIP : Dest → Bool
+  | .dom _ => false
+  | _ => true
+
+/-- **`render` is injective on IP destinations** (IPv4; IPv6 in RFC 5952 text with every zero-run
+    shape; IPv4-mapped forms): two requests whose addresses are rendered to the same text denote
+    the same host.  A domain is rendered as its raw bytes (`Dest.render (.dom s) = s`), so it is
+    trivially injective among domains; a domain collides with an IP destination exactly when its
+    bytes ARE that address's canonical text. -/
+theorem C23_render_injective (d d' : Dest) (hd : d.wf) (hd' : d'.wf)
+    (hi : d.isIP = true) (hi' : d'.isIP = true) (e : d.render = d'.render) : d.canon = d'.canon := by
+  have v4v6 : ∀ (a b : Bytes), a.length = 4 → b.length = 16 → renderV4 a = renderV6 b →
+      Dest.canon (.v4 a) = Dest.canon (.v6 b) := by
+    intro a b ha hb e
+    by_cases hm : is4in6 b = true
+    · have e' : renderV4 a = renderV4 (b.drop 12) := by rw [e]; simp [renderV6, hm]
+      have := renderV4_injective ha (by simp [hb]) e'
+      simp [Dest.canon, hm, this]
+    · have hm' : is4in6 b = false := by simpa using hm
+      exact absurd (e ▸ renderV6_has_colon hm') (renderV4_sepFree_colon a)
+  cases d with
+  | dom _ => cases hi
+  | v4 a =>
+    cases d' with
+    | dom _ => cases hi'
+    | v4 a' => simp [Dest.canon, renderV4_injective hd hd' e]
+    | v6 b' => exact v4v6 a b' hd hd' e
+  | v6 b =>
+    cases d' with
+    | dom _ => cases hi'
+    | v4 a' => exact (v4v6 a' b hd' hd e.symm).symm
+    | v6 b' =>
+      have hb : b.length = 16 := hd
+      have hb' : b'.length = 16 := hd'
+      by_cases hm : is4in6 b = true <;> by_cases hm' : is4in6 b' = true
+      · have e' : renderV4 (b.drop 12) = renderV4 (b'.drop 12) := by
+          simpa [Dest.render, renderV6, hm, hm'] using e
+        have := renderV4_injective (by simp [hb]) (by simp [hb']) e'
+        simp [Dest.canon, hm, hm', this]
+      · have h2 : is4in6 b' = false := by simpa using hm'
+        have e' : renderV4 (b.drop 12) = renderV6 b' := by simpa [Dest.render, renderV6, hm] using e
+        exact absurd (e' ▸ renderV6_has_colon h2) (renderV4_sepFree_colon _)
+      · have h1 : is4in6 b = false := by simpa using hm
+        have e' : renderV6 b = renderV4 (b'.drop 12) := by simpa [Dest.render, renderV6, hm'] using e
+        exact absurd (e' ▸ renderV6_has_colon h1) (renderV4_sepFree_colon _)
+      · have h1 : is4in6 b = false := by simpa using hm
+        have h2 : is4in6 b' = false := by simpa using hm'
+        simp [Dest.canon, h1, h2, renderV6_injective hb hb' h1 h2 e]
+
+/-- The dial string determines the rendered host AND the port: no two different (host text, port)
+    pairs are dialled alike (`net.JoinHostPort` is injective, brackets included). -/
+theorem C23_dial_string_injective (h h' : Bytes) (p p' : Nat)
+    (e : joinHostPort h p = joinHostPort h' p') : h = h' ∧ p = p' :=
+  joinHostPort_injective e
+
+/-- What a dialer that parses the string with `net.SplitHostPort` (Agent.DialContext, net.Dial)
+    gets back for an IP destination: exactly the rendered address and the port's decimal text. -/
+theorem C23_dialer_parses_ip (d : Dest) (hi : d.isIP = true) (p : Nat) :
+    splitHostPort (joinHostPort d.render p) = .ok d.render (decimal p) := by
+  cases d with
+  | dom _ => cases hi
+  | v4 b => exact split_join _ (renderV4_bracketFree b) p
+  | v6 b => exact split_join _ (renderV6_bracketFree b) p
+
+/-- … and for a domain without square brackets (colons allowed): exactly the domain's bytes. -/
+theorem C23_dialer_parses_domain (s : Bytes) (hb : bracketFree s) (p : Nat) :
+    splitHostPort (joinHostPort s p) = .ok s (decimal p) := split_join s hb p
+
+/-- Where the parse is NOT the identity (observation, no defect of the handler: the handler passes
+    the requested bytes on verbatim): a colon-free domain of the shape `[x]` loses its brackets in
+    `net.SplitHostPort`, e.g. the "domain" `[1.2.3.4]` port 80 is dialled as host `1.2.3.4`; other
+    bracket-carrying names make `SplitHostPort` fail.  The same client could have asked for `x`. -/
+example : splitHostPort (joinHostPort [0x5b, 0x31, 0x2e, 0x32, 0x2e, 0x33, 0x2e, 0x34, 0x5d] 80) =
+    .ok [0x31, 0x2e, 0x32, 0x2e, 0x33, 0x2e, 0x34] [0x38, 0x30] := by decide
+example : splitHostPort (joinHostPort [0x5b, 0x3a, 0x3a, 0x31, 0x5d] 80) = .err := by decide   -- "[::1]" as a domain
+example : splitHostPort (joinHostPort [0x61, 0x5d, 0x3a, 0x31, 0x5b, 0x62] 80) = .err := by decide -- "a]:1[b"
 
 /-! ### the hypotheses are satisfiable; concrete instances -/
 
